@@ -87,6 +87,12 @@ func aBytes(s string) mk  { return mk{starlark.Bytes(s), dBytes(s), 1} }
 func aTime(ns int64, loc *time.Location) mk {
 	return mk{stime.Time(time.Unix(0, ns).In(loc)), D{T: "time", NS: fmt.Sprint(ns)}, 1}
 }
+// aTimeAt: an instant given as seconds + nanoseconds (also outside the int64-nanosecond range)
+func aTimeAt(sec int64, nsec int64, loc *time.Location) mk {
+	ns := new(big.Int).Mul(big.NewInt(sec), big.NewInt(1000000000))
+	ns.Add(ns, big.NewInt(nsec))
+	return mk{stime.Time(time.Unix(sec, nsec).In(loc)), D{T: "time", NS: ns.String()}, 1}
+}
 func aDur(ns int64) mk { return mk{stime.Duration(ns), D{T: "dur", NS: fmt.Sprint(ns)}, 1} }
 func aFunc(v starlark.Value, name string) mk {
 	id := nextID
@@ -194,7 +200,7 @@ func classOf(d D) string {
 	switch d.T {
 	case "int", "float":
 		return "num"
-	case "str", "bytes", "bool", "tuple", "list":
+	case "str", "bytes", "bool", "tuple", "list", "time", "dur":
 		return d.T
 	}
 	return "other"
@@ -288,6 +294,14 @@ func main() {
 		aBuiltin(up1.(*starlark.Builtin)), aBuiltin(up2.(*starlark.Builtin)))
 	addm(aTime(0, zones[0]), aTime(1700000000123456789, zones[0]), aTime(1700000000123456789, zones[1]), aTime(-1, zones[2]), aTime(1700000000123456790, zones[2]))
 	addm(aDur(0), aDur(1), aDur(-1), aDur(1<<40), aDur(3600e9))
+	// the whole representable range of durations and instants: extremes, +-2^62, far-apart pairs
+	// whose difference overflows int64, neighbours, the same instant in different zones
+	addm(aDur(math.MaxInt64), aDur(math.MinInt64), aDur(math.MaxInt64-1), aDur(math.MinInt64+1), aDur(1<<62), aDur(-(1<<62)),
+		aDur(1<<62+1), aDur(2000000*3600e9), aDur(-2000000*3600e9), aDur(1<<63-1<<31), aDur(-(1<<31)), aDur(1<<31), aDur(1<<32+5))
+	addm(aTime(math.MaxInt64, zones[0]), aTime(math.MinInt64, zones[1]), aTime(math.MaxInt64-1, zones[2]), aTime(math.MinInt64+1, zones[0]),
+		aTime(1<<62, zones[1]), aTime(-(1<<62), zones[2]), aTime(1, zones[0]), aTime(-1, zones[1]), aTime(0, zones[2]),
+		aTimeAt(-62135596800, 0, zones[0]), aTimeAt(-62135596800, 1, zones[1]), aTimeAt(253402300799, 999999999, zones[2]), aTimeAt(253402300799, 999999999, zones[0]),
+		aTimeAt(1<<40, 5, zones[1]), aTimeAt(-(1<<40), 5, zones[2]))
 	natoms := len(pool)
 	// containers
 	one, onef, two := aI(1), aFloat(1), aI(2)
@@ -469,7 +483,7 @@ func main() {
 			}
 			// ordered classes: total
 			ci, cj := items[i].cls, items[j].cls
-			if ci == cj && (ci == "num" || ci == "str" || ci == "bytes" || ci == "bool") && lt == 'E' {
+			if ci == cj && (ci == "num" || ci == "str" || ci == "bytes" || ci == "bool" || ci == "time" || ci == "dur") && lt == 'E' {
 				violate("order_total", "< fails on an ordered class", i, j)
 			}
 			if isSet(i) || isSet(j) {
@@ -616,7 +630,7 @@ func main() {
 			all = append(all, i)
 		}
 	}
-	classes := []string{"num", "num", "num", "str", "bytes", "bool", "tuple", "list", "mixed"}
+	classes := []string{"num", "num", "num", "str", "bytes", "bool", "tuple", "list", "mixed", "time", "dur", "dur"}
 	lessOK := func(a, b int) (bool, bool) { c := at(a, b, oLT); return c == 'T', c == 'T' || c == 'F' }
 	for q := 0; q < *nseq; q++ {
 		cl := classes[r.Intn(len(classes))]
